@@ -781,7 +781,7 @@ def mpo_instr(draw, spec, real_only=False):
     return {"op": "mpo", "terms": terms, "charge": [0] * gen.qn_size(spec), "algo": algo}
 
 
-SCALARS = [[2.0, 0.0], [-0.5, 0.0], [0.3, 0.4], [0.0, 1.0], [-1.0, 0.0], [1e-3, 0.0], [40.0, -9.0]]
+SCALARS = [[2.0, 0.0], [-0.5, 0.0], [0.3, 0.4], [0.0, 1.0], [-1.0, 0.0], [1e-3, 0.0], [40.0, -9.0], [1.0, 0.0]]
 
 
 @st.composite
